@@ -61,6 +61,8 @@ class FakeTransport(asyncio.Transport):
         self.fail_after: Optional[int] = None  # fail the n-th write from now (1-based)
         self.black_hole = False
         self.write_paused = False
+        self.fail_at_byte: Optional[int] = None  # fail the write that would carry the stream beyond this many bytes
+        self._tx_count = 0
         self.pause_after: Optional[int] = None  # back-pressure: pause writing once the n-th write from now was taken
         self._read_paused = False
         self._eof_seen = False
@@ -105,6 +107,13 @@ class FakeTransport(asyncio.Transport):
             return
         if not data:
             return
+        if self.fail_at_byte is not None and self._tx_count + len(data) > self.fail_at_byte:
+            # the connection dies once `fail_at_byte` bytes have been taken: the write that would cross that offset
+            # fails (independent of how the client cuts its frames into write calls)
+            self.fail_at_byte = None
+            self.net._event("write_fault", self.cid)
+            self._fatal(InjectedWriteError("injected write error"), who="fault")
+            return
         if self.fail_after is not None:
             self.fail_after -= 1
             if self.fail_after <= 0:
@@ -114,6 +123,7 @@ class FakeTransport(asyncio.Transport):
                 return
         b = bytes(data)
         now = self.loop.time()
+        self._tx_count += len(b)
         self.writes.append((now, b))
         self.net._event("tx", self.cid, b)
         if self.net.on_data is not None and not self.black_hole:
@@ -247,6 +257,7 @@ class FakeNet:
         self.arm_on_accept: list = []   # write-fault positions to arm on the next accepted connections
         self.close_latency = 0.0         # virtual seconds between transport.close() and connection_lost
         self.finalizer_closed: list = []  # connections the client dropped without closing them (closed by StreamWriter.__del__)
+        self.arm_bytes_on_accept: list = []   # byte offsets at which the next accepted connections die while being written to
         self.pause_on_accept: list = []  # back-pressure positions (n-th write) for the next accepted connections
         _CURRENT[0] = self
 
@@ -308,6 +319,10 @@ class FakeNet:
             n = self.arm_on_accept.pop(0)
             if n:
                 tr.fail_write(n)
+        if self.arm_bytes_on_accept:
+            nb = self.arm_bytes_on_accept.pop(0)
+            if nb:
+                tr.fail_at_byte = nb
         if self.pause_on_accept:
             n = self.pause_on_accept.pop(0)
             if n:
@@ -319,10 +334,12 @@ class FakeNet:
         self.script.clear()
         self.close_latency = 0.0
         self.arm_on_accept.clear()
+        self.arm_bytes_on_accept.clear()
         self.pause_on_accept.clear()
         self.default = ("accept", 0.0)
         for c in self.conns:
             c.fail_after = None
+            c.fail_at_byte = None
             c.pause_after = None
             c.black_hole = False
             if c.write_paused:
